@@ -37,7 +37,8 @@ def run(ctx):
     ctx.cov['distinct_nontrivial'] = ctx.cov['states']
     ctx.cov['rule'] = ('states = distinct (reference-model state, stored-key structure) pairs reached by BFS over the operation '
                        'alphabet on each zoo message; transitions = (state, operation) pairs, each executed on a fresh real '
-                       'object by replaying the history, sparse and dense; every transition compares outcome class, '
+                       'object by replaying the history, sparse, dense and with the operated-on object fetched before the '
+                       'message is read again (held handle); every transition compares outcome class, '
                        'observation, encode (bytes vs reference encoder), decode round trip and str() with the model. '
                        'non-trivial = every state beyond the initial one is reached by at least one accepted operation.')
     if len(ctx.cov['outcomes']) < 3:
@@ -63,11 +64,17 @@ def replay(art):
     for o in hist:
         out_m, mstate = model.apply(top, mstate, o)
         log.append('%s -> %s' % (A.op_text(o), impl.execute(msg, o)))
+        if art.get('mode') == 'dense':
+            try:
+                T.observe(ref, top, msg)
+            except Exception:       # noqa
+                pass
     problems = []
     if op is not None:
         out_m, mstate = model.apply(top, mstate, op)
-        got = impl.execute(msg, op)
-        log.append('%s -> %s (model: %s)' % (A.op_text(op), got, out_m))
+        got = impl.execute(msg, op, held=(art.get('mode') == 'held'))
+        log.append('%s%s -> %s (model: %s)' % (A.op_text(op), ' [on a handle fetched before str(m), m.encode()]'
+                                               if art.get('mode') == 'held' else '', got, out_m))
         if got not in ahe.ACCEPT[out_m]:
             problems.append('outcome %s, model %s' % (got, out_m))
     tree = model.to_tree(top, mstate)
